@@ -221,6 +221,16 @@ fn pmsgs(prop: &str) -> BoxedStrategy<Vec<PMsg>> {
             ],
             0..4,
         )
+        // a proposal may well carry the same message twice in a row (e.g. two equal payments)
+        .prop_flat_map(|v| (Just(v), proptest::option::weighted(0.3, any::<u16>())))
+        .prop_map(|(mut v, dup)| {
+            if let (Some(k), false) = (dup, v.is_empty()) {
+                let i = pick(k, v.len());
+                let m = v[i].clone();
+                v.insert(i, m);
+            }
+            v
+        })
         .boxed(),
         "C15" => proptest::collection::vec(prop_oneof![3 => Just(PMsg::Record), 2 => (actor(), 0u32..40).prop_map(|(to, amt)| PMsg::SpendDeposit { to, amt })], 0..3).boxed(),
         _ => Just(vec![]).boxed(),
@@ -1821,6 +1831,10 @@ pub fn decode_mcase(prop: &str, u: &mut arbitrary::Unstructured) -> MCase {
                                 6 => PMsg::ReVote(d_ref(u)),
                                 _ => PMsg::ReClose(d_ref(u)),
                             })
+                            .collect::<Vec<_>>()
+                            .into_iter()
+                            .flat_map(|m| if matches!(m, PMsg::BankSend { .. }) { vec![m.clone(), m] } else { vec![m] })
+                            .take(5)
                             .collect()
                     }
                     "C15" => (0..arb_below(u, 3)).map(|_| if arb_bool(u, 2, 5) { PMsg::SpendDeposit { to: d_actor(u), amt: arb_below(u, 40) as u32 } } else { PMsg::Record }).collect(),
